@@ -397,3 +397,25 @@ Proof.
   split; [vm_compute; reflexivity|]. split; [reflexivity|]. split; [vm_compute; reflexivity|].
   split; [reflexivity|]. split; vm_compute; reflexivity.
 Qed.
+
+(* run(until = an event triggered with 7): after the prelude the event carries the stop callback; the step stops with 7 *)
+Definition ex_stop_state : state :=
+  add_callback 0%nat CbStop (fst (call_succeed 0%nat (VInt 7) (fst (call_event (init_state 0))))).
+Lemma ex_stop_callback_step :
+  (exists ev, get_event 0%nat ex_stop_state = Some ev /\ out ev = Some (Ok (VInt 7)) /\
+     stop_cb_fx 0%nat ex_stop_state (gen_StopSimulation_callback true) = Some (stop_cb 0%nat ex_stop_state)) /\
+  snd (stop_cb 0%nat ex_stop_state) = RStop (VInt 7) /\
+  snd (step 1 [] ex_stop_state) <> RBroken /\
+  step_fx 1 [] ex_stop_state (step_gen 1 [] ex_stop_state) = Some (step 1 [] ex_stop_state) /\
+  snd (step 1 [] ex_stop_state) = RStop (VInt 7).
+Proof.
+  split; [eexists; split; [reflexivity|]; split; reflexivity|].
+  split; [vm_compute; reflexivity|]. split; [vm_compute; discriminate|].
+  split; [apply bridge_step; vm_compute; discriminate|vm_compute; reflexivity].
+Qed.
+
+Lemma ex_defused_get :
+  exists ev, get_event 0%nat ex_stop_state = Some ev /\
+  call_query QDefused 0%nat ex_stop_state = (ex_stop_state, Ok (vbool false)) /\
+  snd (gen_Event_defused_get (defused ev)) = false.
+Proof. eexists. split; [reflexivity|]. split; reflexivity. Qed.
